@@ -95,13 +95,16 @@ def parse_vc(path):
         elif kw == 'spec': u.specs += w[1:]
         elif kw == 'module':
             # module <path> from <file> whole | items A B ... [drop_variants X Y]
-            mp = w[1]; f = w[3]; mode = w[4]
+            mp = w[1]
+            if len(w) == 3 and w[2] == 'empty':
+                u.modules.append(ModuleSpec(mp, None, 'empty', [], [])); i += 1; cur_fn = None; continue
+            f = w[3]; mode = w[4]
             rest = w[5:]
             items = []; dv = []
             tgt = items
             for x in rest:
                 if x == 'drop_variants': tgt = dv; continue
-                tgt.append(x)
+                tgt.append(x.replace('~', ' '))
             u.modules.append(ModuleSpec(mp, f, mode, items, dv))
             cur_fn = None
         elif kw == 'raw':
@@ -435,10 +438,14 @@ def build(unit, out_dir, twin=False):
     tree = {}
     originals = []
     for m in unit.modules:
-        fpath = os.path.join(REPO, m.file)
-        if not os.path.exists(fpath): raise Unsupported(f'lost anchor: file {m.file}')
-        src = open(fpath).read()
-        if m.mode == 'items':
+        if m.mode == 'empty':
+            src = ''
+        else:
+            fpath = os.path.join(REPO, m.file)
+            if not os.path.exists(fpath): raise Unsupported(f'lost anchor: file {m.file}')
+            src = open(fpath).read()
+        if m.mode == 'empty': pass
+        elif m.mode == 'items':
             src = _extract_items(src, m.items, m.drop_variants)
         elif m.mode != 'whole':
             raise ValueError('module mode ' + m.mode)
@@ -492,6 +499,7 @@ def build(unit, out_dir, twin=False):
     # diff
     d = []
     for m, orig, new, log in originals:
+        if m.mode == 'empty': continue
         d.append(f'=== {m.file} -> mod {m.path} ({m.mode}{" " + " ".join(m.items) if m.items else ""})')
         for r, b, a in log:
             d.append(f'  [{r}] - {b}')
@@ -500,7 +508,7 @@ def build(unit, out_dir, twin=False):
         ud = difflib.unified_diff(orig.split('\n'), clean.split('\n'), 'repo:' + m.file, 'verified', lineterm='', n=1)
         d.extend(ud)
     gen.diff = '\n'.join(d)
-    gen.orig_hashes = {m.file: hashlib.sha256(orig.encode()).hexdigest()[:16] for m, orig, _, _ in originals}
+    gen.orig_hashes = {m.file: hashlib.sha256(orig.encode()).hexdigest()[:16] for m, orig, _, _ in originals if m.file}
     return gen
 
 
@@ -517,6 +525,7 @@ def _file_of(f, unit, m):
     """When several module entries share one path (items from different files), pick by explicit hint."""
     same = [x for x in unit.modules if x.path == m.path]
     if len(same) == 1: return True
+    if m.mode == 'empty': return False
     # choose the module whose source contains `fn <name>`
     name = f.path.split('::')[-1]
     src = open(os.path.join(REPO, m.file)).read()
